@@ -57,6 +57,14 @@ def build_pool(rng):
         # related input: same signature entries, different payload
         other = {"signatures": c["env"]["signatures"], "signed": {"changed": i}}        # shares the entries *object*
         pool["envs"].append((other, c["auth"], gpg))
+        # related input: same payload, same key ids, signature *values* corrupted (a damaged copy of the same document, seen before or after the good one)
+        dam = {"signatures": {}, "signed": c["env"]["signed"]}
+        for kk_, ee_ in c["env"]["signatures"].items():
+            if isinstance(ee_, dict) and isinstance(ee_.get("signature"), str) and len(ee_["signature"]) == 128:
+                sg_ = ee_["signature"]
+                ee_ = {**ee_, "signature": sg_[:-1] + ("0" if sg_[-1] != "0" else "1")}
+            dam["signatures"][kk_] = ee_
+        pool["envs"].insert(len(pool["envs"]) - 2, (dam, c["auth"], gpg))
     for gpg in (False, True):
         # entries whose diagnostics would echo printable non-ASCII text: the verdict may not depend on what stdout can encode
         c = envgen.signable_case(rng, gpg, states=["raw_valid" if not gpg else "gpg_valid", "nonascii_value", "nonascii_value"], npool=3)
@@ -158,7 +166,13 @@ def run(ck: Check) -> None:
     all_lines, all_impl, all_calls, all_call_args = [], [], [], []
     for h in range(nh):
         pool = build_pool(rng)
-        calls = [rand_call(rng, pool) for _ in range(ck.n(200, 60))]
+        calls = []
+        for j in range(0, min(len(pool["envs"]), 12), 3):
+            dam_, good_ = pool["envs"][j], pool["envs"][j + 1]
+            if dam_[0].get("signed") is good_[0].get("signed"):
+                for e_, a_, g_ in (dam_, good_, dam_, good_):
+                    calls.append(("vsignable", [e_, a_, 1, g_]))
+        calls += [rand_call(rng, pool) for _ in range(ck.n(200, 60))]
         calls += [calls[i] for i in rng.sample(range(len(calls)), 15)]          # repeats
         for op, args in calls:
             before = [snapshot(a) for a in args]
@@ -265,6 +279,13 @@ def run(ck: Check) -> None:
             obj = {"a": [1, {"b": obj}], "c": {"d": [2, 3]}}
         if rng.random() < 0.3:
             obj = (obj, [1, {"k": [2, 3]}], {"t": {"u": 1}})      # a top-level tuple is immutable, what it holds is not
+        elif rng.random() < 0.35:
+            # containers of other kinds below the top: ordered dicts as json.load(object_pairs_hook=OrderedDict) returns them, default dicts, list and dict
+            # subclasses — plain at the top, so that every type check on the payload itself passes
+            import collections
+            from .. import exotic
+            obj = {"plain": obj, "od": collections.OrderedDict([("z", [1, 2]), ("a", {"q": 1})]), "ml": exotic.MyList([1, {"w": [3]}]),
+                   "md": exotic.MyDict(k=[1, 2], j={"x": 1}), "dd": collections.defaultdict(list, {"p": [1]})}
         w = impl.signing.wrap_as_signable(obj)
         ck.evaluations += 1
         frozen = copy.deepcopy(w)
